@@ -108,7 +108,9 @@ def check(run):
         crules.next_rules(run, "C07-x1", r[1], ast)
         crules.hash_rules(run, "C07-x2", "C07-x3", r[1], "C07-x4", "C07-x5", ast)
         install_rule(run, r[1], ast)
+        from . import c09
         crules.phase_rules(run, r[1], ast)
+        c09.ast_rules(run, r[1], ast, table=False)      # indirect policies: the address table points at the classes' static v-table pointers, valid across updates
         from . import c09
         c09.table_writer_overwrites(run, ast, r[1])
         crules.deferred_rules(run, r[2], None, None, ast)
